@@ -328,6 +328,9 @@ func hiddenOracles(c *OSCase, op Op, out []string, dump []string, snap []string,
 	// parent does not touch them; compare everything
 	if !dumpEqual(blankDirTimes(snap), blankDirTimes(now)) {
 		viol("C06", fmt.Sprintf("after %v the content at or below a hidden path changed: %s", op, dumpDiff(snap, now)))
+		if op.K == "rename" {
+			viol("C11", fmt.Sprintf("%v relocated or changed hidden content: %s", op, dumpDiff(snap, now)))
+		}
 		snap = now // reported once; later operations are judged against the new state
 	}
 	if op.K == "removeall" && out[0] == "ok" && strings.HasPrefix(op.A[0], "/") {
